@@ -1046,7 +1046,17 @@ impl<'a> CompactionIterator<'a> {
 
 		// Check if latest version is DELETE at bottom level
 		// If so, we can completely remove this key from the database
-		let latest_is_delete_at_bottom = self.is_bottom_level
+		// ...unless an open snapshot taken before that delete still reads one of the older
+		// versions: then both that version and the tombstone have to stay (dropping only
+		// the tombstone would resurrect the key once the snapshot is gone).
+		let older_needed_by_snapshot = !self.accumulated_versions.is_empty() && {
+			let latest_seq = self.accumulated_versions[0].0.seq_num();
+			self.accumulated_versions[1..].iter().any(|(k, _)| {
+				self.snapshots.iter().any(|&s| s < latest_seq && k.seq_num() <= s)
+			})
+		};
+		let drop_tombstones_here = self.is_bottom_level && !older_needed_by_snapshot;
+		let latest_is_delete_at_bottom = drop_tombstones_here
 			&& !self.accumulated_versions.is_empty()
 			&& self.accumulated_versions[0].0.is_hard_delete_marker();
 
@@ -1125,10 +1135,10 @@ impl<'a> CompactionIterator<'a> {
 			} else if is_latest && !is_hard_delete && !is_replace {
 				// Latest PUT: never stale (will be output)
 				false
-			} else if is_latest && is_hard_delete && self.is_bottom_level {
+			} else if is_latest && is_hard_delete && drop_tombstones_here {
 				// Latest DELETE at bottom: stale (won't be output)
 				true
-			} else if is_latest && is_hard_delete && !self.is_bottom_level {
+			} else if is_latest && is_hard_delete && !drop_tombstones_here {
 				// Latest DELETE at non-bottom: not stale (tombstone preserved)
 				false
 			} else if is_latest && is_replace {
